@@ -12,7 +12,7 @@ Inductive lit :=
 | LFloat (f : f64)
 | LStr (raw cooked : bytes)          (* source text between the quotes / its value *)
 | LChar (c : N)
-| LOther.
+| LOther (numeric : bool).        (* any other literal; whether its text starts with a digit *)
 
 Inductive tt :=
 | Punct (c : N) (s : spacing)
@@ -43,6 +43,10 @@ Arguments MErr {A} e.
 (* the punctuation characters that may start / continue an identifier *)
 Definition ident_start_punct (c : N) : bool := memb c (s2b "!$%&*+-./:<=>?@^_~").
 Definition ident_cont_punct (c : N) : bool := memb c (s2b "!$%&*+-./:<=>?@^~").
+
+(* is_numeric_literal: the literal's text starts with a digit *)
+Definition is_numeric_lit (l : lit) : bool :=
+  match l with LInt _ | LFloat _ => true | LOther b => b | _ => false end.
 
 (* string_literal *)
 Definition string_literal (l : lit) : mres bytes :=
@@ -111,7 +115,7 @@ Fixpoint mparse (fuel : nat) (ts : list tt) : mres (mvalue * list tt) :=
             | Alone =>
                 if c =? 45 then
                   match ts' with
-                  | Lit l :: ts2 => MOk (MNegated l, ts2)
+                  | Lit l :: ts2 => if is_numeric_lit l then MOk (MNegated l, ts2) else MOk (MSymbol [c], ts')
                   | _ => MOk (MSymbol [c], ts')
                   end
                 else if c =? 58 then
@@ -208,7 +212,7 @@ Section Eval.
     | LFloat f => Number (Float f)
     | LStr _ cooked => String cooked
     | LChar c => Char c
-    | LOther => Nil
+    | LOther _ => Nil
     end.
   Definition value_of_neg_lit (l : lit) : value :=
     match l with
